@@ -456,7 +456,7 @@ def impl(c):
     H.zygote_start()       # the pristine process of the histories is forked before this one uses the library
     if c["entry"] == "hist":
         return H.impl(c)
-    if c["entry"] in ("fparcor", "call"):
+    if c["entry"] in FL.ENTRIES:
         return FL.impl(c)
     from audiolazy import ZFilter, parcor, parcor_stable, levinson_durbin
     from audiolazy.lazy_lpc import ParCorError
@@ -497,7 +497,7 @@ def impl(c):
 def request(c):
     if c["entry"] == "hist":
         return H.request(c)
-    if c["entry"] in ("fparcor", "call"):
+    if c["entry"] in FL.ENTRIES:
         return FL.request(c)
     return c
 
@@ -551,7 +551,7 @@ def compare(c, io, drv):
     e = c["entry"]
     if e == "hist":
         return H.compare(c, io, drv)
-    if e in ("fparcor", "call"):
+    if e in FL.ENTRIES:
         return FL.compare(c, io, drv)
     out = []
     if e in ("stepup", "parcor"):
@@ -665,7 +665,7 @@ def _order(c):
 def nontrivial(c, io):
     if c["entry"] == "hist":
         return H.nontrivial(c, io)
-    if c["entry"] in ("fparcor", "call"):
+    if c["entry"] in FL.ENTRIES:
         return FL.nontrivial(c, io)
     return _order(c) >= 1 and io.get("err") != "ValueError"
 
@@ -685,7 +685,7 @@ def tally(eng, c, io):
         eng.count("entry", e)
         return H.tally(eng, c, io)
     eng.count("entry", e)
-    if e in ("fparcor", "call"):
+    if e in FL.ENTRIES:
         return FL.tally(eng, c, io)
     eng.count("compared:" + e, io.get("compared", "error branch"))
     eng.count("order", min(_order(c), 12))
@@ -772,7 +772,7 @@ def shrink(c):
         for s in H.shrink(c):
             yield s
         return
-    if e in ("fparcor", "call"):
+    if e in FL.ENTRIES:
         for s in FL.shrink(c):
             yield s
         return
@@ -838,7 +838,7 @@ def neighbours(c):
         for s in H.neighbours(c):
             yield s
         return
-    if e in ("fparcor", "call"):
+    if e in FL.ENTRIES:
         for s in FL.neighbours(c):
             yield s
         return
@@ -871,7 +871,7 @@ def classify(c, io, drv):
     e = c["entry"]
     if e == "hist":
         return H.classify(c, io, drv)
-    if e in ("fparcor", "call"):
+    if e in FL.ENTRIES:
         return FL.classify(c, io, drv)
     if "err" in io:
         return "%s:%s" % (e, io["err"])
